@@ -122,11 +122,13 @@ func checkVerifyCosmosHeader(c *core.Ctx, sp tmSpec) {
 
 	// threshold
 	var thr *ssa.BinOp
-	var thrCond ir.Cond
-	for _, cd := range ir.Conds(fn) {
-		if b, ok := cd.V.(*ssa.BinOp); ok && (b.Op == token.LEQ || b.Op == token.GTR) {
-			if _, isPhi := b.X.(*ssa.Phi); isPhi {
-				thr, thrCond = b, cd
+	var thrSite cmpSite
+	sites, release := cmpSites(fn)
+	defer release()
+	for _, st := range sites {
+		if b := st.B; b.Op == token.LEQ || b.Op == token.GTR {
+			if _, isPhi := ir.Resolve(b.X).(*ssa.Phi); isPhi {
+				thr, thrSite = b, st
 			}
 		}
 	}
@@ -142,19 +144,10 @@ func checkVerifyCosmosHeader(c *core.Ctx, sp tmSpec) {
 	}
 	ok, why := eng.EqualForAll(tree, eng.Div(eng.Mul(eng.N(), eng.K(2)), 3), 0)
 	c.Decide(ok, "C30.power-threshold", fn, "accepted iff tallied power > ⌊2·total/3⌋", c.P.Rel(thr.Pos()), why)
-	pass := thrCond.FalseIdx()
-	if thr.Op == token.GTR {
-		pass = thrCond.TrueIdx()
-	}
-	eng.Dominates(c, "C30.power-threshold", fn, eng.NamedGuard{Name: "tallied > ⌊2·total/3⌋", G: func(cd ir.Cond) (bool, bool) {
-		if cd.If == thrCond.If {
-			return true, pass == cd.TrueIdx()
-		}
-		return false, false
-	}}, succ, "nil return", nil)
+	eng.Dominates(c, "C30.power-threshold", fn, siteGuard("tallied > ⌊2·total/3⌋", thrSite, thr.Op == token.GTR), succ, "nil return", nil)
 
 	// tally loop
-	tally := thr.X.(*ssa.Phi)
+	tally := ir.Resolve(thr.X).(*ssa.Phi)
 	var incs []ir.Sink
 	for _, e := range eng.PhiLeaves(nil, tally) {
 		if b, ok := e.(*ssa.BinOp); ok && b.Op == token.ADD {
